@@ -62,29 +62,30 @@ func (vt *v2T) scenC02() {
 	// reported distance must count it (or the candidate must be vetoed) -- never report it as identical
 	swaps := [][2]string{{"lesser", "library"}, {"library", "lesser"}, {"Lesser", "Library"}, {"Library", "Lesser"}, {"2.0", "3.0"}, {"2.1", "3.0"}, {"version 2", "version 3"},
 		{"apache", "bsd"}, {"Apache", "Artistic"}, {"warranty", "guarantee"}, {"gnu", "gnat"}, {"GNU", "GNAT"}}
-	nsw := 0
-	for _, d := range docs {
-		if nsw >= 14 && !vt.thorough() {
-			break
-		}
-		if !(strings.Contains(d.Key, "GPL") || strings.Contains(d.Key, "Apache") || strings.Contains(d.Key, "MPL")) || len(d.Data) > 30000 {
-			continue
-		}
-		sw := swaps[vt.rng.Intn(len(swaps))]
-		txt := string(d.Data)
-		if i := strings.Index(txt, sw[0]); i >= 0 {
-			// the k-th occurrence, seeded
+	for _, sw := range swaps {
+		ndocs := 0
+		for _, di := range vt.rng.Perm(len(docs)) {
+			d := docs[di]
+			txt := string(d.Data)
 			occ := strings.Count(txt, sw[0])
-			k := vt.rng.Intn(occ)
-			pos := 0
-			for j := 0; j <= k; j++ {
-				pos += strings.Index(txt[pos:], sw[0])
-				if j < k {
-					pos += len(sw[0])
-				}
+			if occ == 0 || len(d.Data) > 30000 || (len(d.Data) > 9000 && !vt.thorough() && ndocs > 0) {
+				continue
 			}
-			xs = append(xs, []byte(txt[:pos]+sw[1]+txt[pos+len(sw[0]):]))
-			nsw++
+			for rep := 0; rep < 3 && rep < occ; rep++ { // three seeded occurrences per document
+				k := vt.rng.Intn(occ)
+				pos := 0
+				for j := 0; j <= k; j++ {
+					pos += strings.Index(txt[pos:], sw[0])
+					if j < k {
+						pos += len(sw[0])
+					}
+				}
+				xs = append(xs, []byte(txt[:pos]+sw[1]+txt[pos+len(sw[0]):]))
+			}
+			ndocs++
+			if ndocs >= 2 {
+				break
+			}
 		}
 	}
 	for _, x := range xs {
